@@ -42,7 +42,7 @@ def check_back_conversion(c, rng):
 
 def run(ctx):
     ok_proofs = ctx.check_props(extra=["theories/Corr/Corr_C06.v"])
-    per, depth, max_insts = (10, 3, 12) if ctx.quick else (45, 4, 14)
+    per, depth, max_insts = (20, 3, 12) if ctx.quick else (45, 4, 14)
     cases, gstats = cc.build_cases(ctx, per, max_insts)
     live = [c for c in cases if c.live]
     def depth_of(c):          # thorough: one level deeper on small compiled problems
